@@ -56,6 +56,8 @@ class ParsersWorld:
         self.workroot = workroot
         self.ref = ref
         self.ref_x = ref_x          # pristine reference in an interpreter with ANOTHER hash seed (C14 only)
+        # before the library is imported: locks it creates (module level or later) are owned by the scheduler
+        sched.install_lock_seam(os.path.join(os.path.abspath(tree), "simple_ddl_parser") + os.sep)
         import simple_ddl_parser
         assert os.path.abspath(simple_ddl_parser.__file__).startswith(os.path.abspath(tree))
         from simple_ddl_parser import DDLParser, parse_from_file
@@ -729,7 +731,7 @@ class ParsersWorld:
                 st["violations"].append({"oracle": "isolation", "task": i, "obj": oi, "run": j,
                                          "expected": core.short(expected, 600), "observed": core.short(out, 600),
                                          "diff": core.first_diff(expected, out)})
-        st["stats"].update({"switches": S.switches, "label_points": S.label_points, "line_points": S.line_points,
+        st["stats"].update({"switches": S.switches, "label_points": S.label_points, "line_points": S.line_points, "lock_waits": S.lock_waits,
                             "marathon_runs": 1 if swarm.get("marathon") else 0, "gran_" + gran: 1,
                             "same_text_tasks": sum(1 for t in trace["tasks"] if (t.get("src") or "").endswith("+same")),
                             "followup_tasks": sum(1 for t in trace["tasks"] if (t.get("src") or "").startswith("gen:followup"))})
